@@ -17,7 +17,7 @@ for pid, p in props.items():
         if d.startswith(pid + "-"):
             m = json.load(open(f"/verif/seeded/{d}/meta.json"))
             prev.append(f"- {m['change']} (needs: {m['needs_to_manifest']})")
-    text = f"""You are working in a scratch git worktree of the Rust game-audio library `kira` (tesselode/kira 0.10.5) at {w} (the library crate is in crates/kira; the workspace builds and tests OFFLINE only: always pass `--offline` to cargo; Cargo.lock is already in place). Work ONLY inside {w}. Do not read, list or touch /repo, /verif or any other /tmp/seed* directory. Do not commit anything.
+    text = f"""You are working in a scratch git worktree of the Rust game-audio library `kira` (tesselode/kira 0.10.5) at {w} (the library crate is in crates/kira; the workspace builds and tests OFFLINE only: always pass `--offline` to cargo; Cargo.lock is already in place). Work ONLY inside {w}. Do not read, list or touch /repo, /verif or any other /tmp/seed* directory. Do not commit anything and do not use `git stash` (the stash is shared between worktrees): to toggle your change use `git diff > /tmp/...` / `git apply` / `git apply -R` or `git checkout -- <file>`.
 
 Your job is to play the role of a developer who accidentally introduces a subtle bug. Craft a realistic change to kira's source (crates/kira/src/**) that BREAKS the property below, while
  (a) the crate still compiles (`cargo build -p kira --offline`) with no new errors,
